@@ -690,9 +690,14 @@ def bounded(payload):
 
     # ---- through the Fortran generator's own call site (get_code) ----
     n_gc = 0
-    gc_lines = ["call f(aaaa, bbbb, cccc, dddd, eeee, ffff, gggg, hhhh, iiii, jjjj, kkkk, llll, mmmm, nnnn, oooo, pppp)",
+    gc_lines = ["write(dagrt_stderr,*) \"can't allocate memory for the state vector of the slow component\", dagrt_ierr",
+                "write(*,*) 'the \"fast\" component failed to converge within the allowed number of iterations', lploc_k",
+                "call f(aaaa, bbbb, cccc, dddd, eeee, ffff, gggg, hhhh, iiii, jjjj, kkkk, llll, mmmm, nnnn, oooo, pppp)",
                 "write(dagrt_stderr,*) 'two  blanks and a rather long message that makes this line wrap around', lploc_x",
                 "x = a1 + b2 * c3 - d4 + e5 * f6 - g7 + h8 * i9 - j10 + k11 * l12 - m13 + n14 * o15 - p16 + q17 + r18"]
+    for line in gc_lines[:2]:
+        for width in (30, 50, 80):
+            run({"lang": "fortran", "line": line, "level": 1, "width": width, "indentation": " "})
     for line in gc_lines + [l_.strip() for l_ in sorted(set(rl["fortran"])) if not l_.strip().startswith("!")][:60]:
         for level in (0, 3, 8):
             run({"lang": "fortran", "line": line, "level": level, "width": 80, "indentation": " ", "via": "get_code"})
